@@ -104,4 +104,78 @@ theorem serveRound_perm (feed : CS Msg → Bytes → CS Msg) (net : List (CS Msg
       exact hxy (eq_of_nodup_map_fst l₁ hn x hx y hy h)
     exact feedAt_comm feed z x.1 y.1 x.2 y.2 hne
 
+
+/-! ### the controller's round as the code runs it: a raising read abandons the rest of the round -/
+
+/-- the per-connection step of `OpenFlow_01_Task.run` (= the function `ctlServe` applies at index `i`) -/
+def ctlStep (U : Unpack Msg) (c : CS Msg) (ch : Bytes) : CS Msg :=
+  let r := ctlFeed U 8 c ch
+  if r.st = .dead then { r with st := .closed } else r
+
+/-- `con.read()` raised for connection `i` on these bytes (decoder exception, consumed-length assertion, missing decoder) -/
+def ctlRaises (U : Unpack Msg) (net : List (CS Msg)) (i : Nat) (ch : Bytes) : Bool :=
+  match net[i]? with
+  | some c => decide ((ctlFeed U 8 c ch).st = .dead)
+  | none => false
+
+/-- one pass of `for con in rlist:` inside the `try`: connections are served in order; when a read raises, the `except:`
+    closes that connection and the REST of the list is not served in this pass — it is returned, still unread -/
+def ctlRound (U : Unpack Msg) : List (CS Msg) → List (Nat × Bytes) → List (CS Msg) × List (Nat × Bytes)
+  | net, [] => (net, [])
+  | net, e :: r =>
+    if ctlRaises U net e.1 e.2 then (feedAt (ctlStep U) net e.1 e.2, r)
+    else ctlRound U (feedAt (ctlStep U) net e.1 e.2) r
+
+/-- select is level-triggered: what a pass left unread is reported again; `fuel` passes -/
+def ctlRounds (U : Unpack Msg) : Nat → List (CS Msg) → List (Nat × Bytes) → List (CS Msg) × List (Nat × Bytes)
+  | 0, net, items => (net, items)
+  | fuel + 1, net, items =>
+    match items with
+    | [] => (net, [])
+    | _ :: _ => let r := ctlRound U net items
+                ctlRounds U fuel r.1 r.2
+
+theorem ctlRound_completes (U : Unpack Msg) (items : List (Nat × Bytes)) : ∀ (net : List (CS Msg)),
+    serveRound (ctlStep U) (ctlRound U net items).1 (ctlRound U net items).2 = serveRound (ctlStep U) net items := by
+  induction items with
+  | nil => intro net; rfl
+  | cons e r ih =>
+    intro net
+    by_cases h : ctlRaises U net e.1 e.2 = true
+    · simp only [ctlRound, if_pos h]; rfl
+    · simp only [ctlRound, if_neg h]
+      rw [ih]; rfl
+
+theorem ctlRound_shorter (U : Unpack Msg) (items : List (Nat × Bytes)) : ∀ (net : List (CS Msg)),
+    (ctlRound U net items).2.length ≤ items.length - 1 := by
+  induction items with
+  | nil => intro net; simp [ctlRound]
+  | cons e r ih =>
+    intro net
+    by_cases h : ctlRaises U net e.1 e.2 = true
+    · simp only [ctlRound, if_pos h]; simp
+    · simp only [ctlRound, if_neg h]
+      have := ih (feedAt (ctlStep U) net e.1 e.2)
+      simp only [List.length_cons, Nat.add_sub_cancel]
+      omega
+
+theorem ctlRounds_completes (U : Unpack Msg) : ∀ (fuel : Nat) (net : List (CS Msg)) (items : List (Nat × Bytes)),
+    items.length ≤ fuel →
+    ctlRounds U fuel net items = (serveRound (ctlStep U) net items, []) := by
+  intro fuel
+  induction fuel with
+  | zero =>
+    intro net items h
+    have : items = [] := List.eq_nil_of_length_eq_zero (Nat.le_zero.mp h)
+    subst this; rfl
+  | succ fuel ih =>
+    intro net items h
+    cases items with
+    | nil => rfl
+    | cons e r =>
+      simp only [ctlRounds]
+      have hs := ctlRound_shorter U (e :: r) net
+      have hc := ctlRound_completes U (e :: r) net
+      rw [ih _ _ (by simp only [List.length_cons, Nat.add_sub_cancel] at hs h ⊢; omega), hc]
+
 end Pox.Framing
